@@ -202,7 +202,43 @@ where
     finish(r)
 }
 
+/// the platform libm as Rust calls it: oracle tables for ln / exp / log10 / log2 / powf
+fn libm(t: &mut Toks) -> String {
+    let f = t.next().to_string();
+    let et = t.next().to_string();
+    t.bar();
+    let n = t.usize();
+    let mut out = n.to_string();
+    for _ in 0..n {
+        if et == "f64" {
+            let x = f64::from_bits(t.u64());
+            let y = match f.as_str() {
+                "ln" => x.ln(),
+                "exp" => x.exp(),
+                "log10" => x.log10(),
+                "log2" => x.log2(),
+                "cbrt_powf" => x.powf(1. / 3.),
+                _ => panic!("bad libm fn"),
+            };
+            out.push_str(&format!(" {}", y.to_bits()));
+        } else {
+            let x = f32::from_bits(t.u64() as u32);
+            let y = match f.as_str() {
+                "ln" => x.ln(),
+                "exp" => x.exp(),
+                "log10" => x.log10(),
+                _ => panic!("bad libm fn"),
+            };
+            out.push_str(&format!(" {}", y.to_bits()));
+        }
+    }
+    format!("OK {}", out)
+}
+
 pub fn run(routine: &str, t: &mut Toks) -> String {
+    if routine == "libm" {
+        return libm(t);
+    }
     let et = t.next();
     t.bar();
     let dev = matches!(
